@@ -21,11 +21,22 @@ struct Ref {
   std::vector<pixman_fixed_t> params;
   int w, h;
   // source pixel as a8r8g8b8; out of bounds handled by the caller
+  const Image *amap = nullptr;  // the source's alpha map: replaces the alpha of every source pixel (0 outside the map)
+  int ax = 0, ay = 0;
   uint32_t px(int x, int y) const {
     pixman_format_code_t f = im->d.code();
     uint32_t raw = raw_get(im->rowp(y), bpp(f), x);
-    if (is_indexed(f)) return im->pal->rgba[raw];
-    return decode8888(f, raw);
+    uint32_t p = is_indexed(f) ? im->pal->rgba[raw] : decode8888(f, raw);
+    if (amap) {
+      int mx = x - ax, my = y - ay;
+      uint32_t a = 0;
+      if (mx >= 0 && my >= 0 && mx < amap->d.w && my < amap->d.h) {
+        pixman_format_code_t mf = amap->d.code();
+        a = decode8888(mf, raw_get(amap->rowp(my), bpp(mf), mx)) & 0xff000000u;
+      }
+      p = (p & 0x00ffffffu) | a;
+    }
+    return p;
   }
   static int64_t mod(int64_t a, int64_t b) { return ((a % b) + b) % b; }
   // repeat: returns false when the sample is transparent (REPEAT_NONE outside)
@@ -61,6 +72,18 @@ struct Ref {
       out |= (uint32_t)((v >> 16) & 0xff) << sh;
     }
     return out;
+  }
+  // the floating-point pipeline blends with the full 16-bit fractions and does not truncate: real-valued result (a,r,g,b)
+  void bilinear_real(int64_t X, int64_t Y, long double out[4]) const {
+    int64_t x1 = X - 32768, y1 = Y - 32768;
+    long double dx = (long double)(x1 & 0xffff) / 65536, dy = (long double)(y1 & 0xffff) / 65536;
+    int64_t px0 = fl16(x1), py0 = fl16(y1);
+    uint32_t c[4] = {get(px0, py0), get(px0 + 1, py0), get(px0, py0 + 1), get(px0 + 1, py0 + 1)};
+    long double w[4] = {(1 - dx) * (1 - dy), dx * (1 - dy), (1 - dx) * dy, dx * dy};
+    for (int k = 0; k < 4; k++) {
+      out[k] = 0;
+      for (int i = 0; i < 4; i++) out[k] += w[i] * ((c[i] >> (24 - 8 * k)) & 0xff);
+    }
   }
   static uint32_t reduce(const int64_t t[4]) {
     uint32_t out = 0;
@@ -184,6 +207,20 @@ static SCase gen_case() {
   s.repeat = (int)R(0, 3);
   sc.sx = (int)R(-2, 3);
   sc.sy = (int)R(-2, 3);
+  if (coin(10)) {
+    // the source carries an alpha map (smaller or larger than itself, at any origin): the general fetchers then replace
+    // the alpha of every pixel they read, in the 8-bit and in the floating-point pipeline
+    s.has_alpha_map = 1;
+    s.amap = gen_bits(fmt_index(pick<pixman_format_code_t>({PIXMAN_a8, PIXMAN_a8, PIXMAN_a4, PIXMAN_a1, PIXMAN_a8r8g8b8})), 1, 1);
+    s.amap.w = std::max(1, s.bits.w + (int)R(-3, 2));
+    s.amap.h = std::max(1, s.bits.h + (int)R(-3, 2));
+    s.ax = (int)R(-2, 3);
+    s.ay = (int)R(-2, 3);
+  }
+  if (coin(12)) {
+    // floating-point destination: the same sampling rules through the wide fetchers (compared within a tolerance)
+    sc.dst.bits.fmt = fmt_index(PIXMAN_rgba_float);
+  }
   if (coin(6)) {
     // a very wide source sampled with a large step, starting far left of the image: position and bounds arithmetic with
     // sums beyond 2^31 units, every sample position still inside the +-32767 pixel range
@@ -203,7 +240,7 @@ static SCase gen_case() {
     s.filter = pickw({5, 5});
     s.repeat = pickw({4, 1, 4, 1});
   }
-  if (coin(15)) {
+  if (sc.dst.bits.code() != PIXMAN_rgba_float && coin(15)) {
     // through an untransformed a8 mask with runs of 0x00 and 0xff, with SRC or OVER: scanline code that skips groups of
     // masked-out pixels must keep its sampling position and interpolation weights in step
     sc.has_mask = 1;
@@ -251,6 +288,11 @@ static Verdict run_case(const SCase &c) {
   }
   Ref ref;
   ref.im = b.s.bits.get();
+  if (s.has_alpha_map && b.s.amap) {
+    ref.amap = b.s.amap.get();
+    ref.ax = s.ax;
+    ref.ay = s.ay;
+  }
   ref.d = &s;
   ref.params = b.s.params;
   ref.w = s.bits.w;
@@ -334,6 +376,59 @@ static Verdict run_case(const SCase &c) {
     for (int i = 0; i < sc.w && v.ok; i++) {
       if (!rr::contains(R, i, j)) continue;
       const Pos &p = pos[(size_t)j * sc.w + i];
+      if (sc.dst.bits.code() == PIXMAN_rgba_float) {
+        // the wide pipeline: the same sample, computed in floating point (no truncation of the weighted sums, sources
+        // with fewer than 8 bits per channel widened as v/(2^n-1)): within 0.6 steps for nearest, 1.6 otherwise
+        const float *q = (const float *)b.d.bits->rowp(j) + 4 * i;
+        long double gv[4] = {q[3] * 255.0L, q[0] * 255.0L, q[1] * 255.0L, q[2] * 255.0L};
+        // tolerance: sources with fewer than 8 bits per channel are widened as v/(2^n-1) here and by bit replication in
+        // the reference (up to 0.94 steps apart); the 8-bit reference of the kernels rounds its sums (0.5)
+        pixman_format_code_t sfm = s.bits.code();
+        bool sub8 = is_indexed(sfm) ? false : ((abits(sfm) && abits(sfm) < 8) || (rbits(sfm) && rbits(sfm) < 8) || (gbits(sfm) && gbits(sfm) < 8) || (bbits(sfm) && bbits(sfm) < 8));
+        // (a kernel with negative taps amplifies the widening difference by the sum of its absolute coefficients)
+        long double gain = 1;
+        if (s.filter == 2 && ref.params.size() > 2) {
+          gain = 0;
+          for (size_t k = 2; k < ref.params.size(); k++) gain += fabsl((long double)ref.params[k]) / 65536;
+        } else if (s.filter == 3 && ref.params.size() > 4) {
+          int cw = ref.params[0] >> 16, ch = ref.params[1] >> 16, nx = 1 << (ref.params[2] >> 16), ny = 1 << (ref.params[3] >> 16);
+          long double gx = 0, gy = 0;
+          for (int ph = 0; ph < nx; ph++) {
+            long double t = 0;
+            for (int k = 0; k < cw; k++) t += fabsl((long double)ref.params[(size_t)(4 + ph * cw + k)]) / 65536;
+            gx = std::max(gx, t);
+          }
+          for (int ph = 0; ph < ny; ph++) {
+            long double t = 0;
+            for (int k = 0; k < ch; k++) t += fabsl((long double)ref.params[(size_t)(4 + nx * cw + ph * ch + k)]) / 65536;
+            gy = std::max(gy, t);
+          }
+          gain = gx * gy;
+        }
+        gain = std::max<long double>(gain, 1);
+        long double tol = 0.1L + (sub8 ? 0.72L * gain : 0) + ((s.filter == 2 || s.filter == 3) ? 0.55L + 0.05L * gain : 0);
+        bool bil = s.filter == 1 || s.filter == 5 || s.filter == 6;
+        auto close_at = [&](int64_t X, int64_t Y) {
+          long double wv[4];
+          if (bil) ref.bilinear_real(X, Y, wv);  // (the 7-bit weights of the statement belong to the 8-bit fetchers)
+          else {
+            uint32_t w8 = ref.sample(X, Y);
+            wv[0] = w8 >> 24, wv[1] = (w8 >> 16) & 0xff, wv[2] = (w8 >> 8) & 0xff, wv[3] = w8 & 0xff;
+          }
+          for (int k = 0; k < 4; k++)
+            if (fabsl(gv[k] - wv[k]) > tol) return false;
+          return true;
+        };
+        uint32_t want = ref.sample(p.x, p.y);
+        bool ok = close_at(p.x, p.y);
+        if (!ok && p.has2)
+          for (int k = 1; k < 4 && !ok; k++) ok = close_at(k & 1 ? p.x2 : p.x, k & 2 ? p.y2 : p.y);
+        if (!ok)
+          v.fail(fmt("dest (%d,%d) [float pipeline]: source position (%lld,%lld)/65536 filter %d repeat %d source %dx%d %s%s: fetched a=%.2Lf r=%.2Lf g=%.2Lf b=%.2Lf, reference %08x", i, j, (long long)p.x,
+                     (long long)p.y, s.filter, s.repeat, s.bits.w, s.bits.h, FORMATS[s.bits.fmt].name, s.has_alpha_map ? " + alpha map" : "", gv[0], gv[1], gv[2], gv[3], want));
+        distinct_src.insert(want);
+        continue;
+      }
       uint32_t got = raw_get(b.d.bits->rowp(j), 32, i);
       // what reaches the destination: the fetched value itself (SRC, no mask), or the fetched value IN the mask, combined
       // with the old destination by the exact 8-bit rule (all formats involved are narrow)
@@ -373,6 +468,8 @@ static Verdict run_case(const SCase &c) {
   if (!affine) v.label("projective");
   if (sc.has_mask) v.label(sc.op == PIXMAN_OP_OVER ? "a8_mask_over" : "a8_mask_src");
   if (s.bits.w >= 20000) v.label("very_wide_source");
+  if (s.has_alpha_map) v.label("source_alpha_map");
+  if (sc.dst.bits.code() == PIXMAN_rgba_float) v.label("float_pipeline");
   if (near_boundary) v.label("sample_on_pixel_boundary");
   if (outside) v.label("samples_outside_source");
   return v;
